@@ -41,6 +41,20 @@ func regressionScenarios(prop string) []regression {
 	out = append(out, regression{"D3-map-dynamic-selector", mk(&Rule{Name: "R0", Desc: "d3m", Sal: 0,
 		When: mkBin("<", eVar(vSel(vPath("F", "M"), eVar(vPath("F", "S")))), cInt(3)),
 		Then: []*Stmt{assign(vSel(vPath("F", "M"), cStr("a")), "=", mkBin("+", eVar(vSel(vPath("F", "M"), cStr("a"))), cInt(1)))}})})
+	// the flat class of proofs/Frame.v (where the hypotheses of the refinement theorem are theorems): must simply hold
+	neg := func(e *Expr) *Expr { return eParen(true, e) }
+	fl := mk(
+		&Rule{Name: "Count", Desc: "", Sal: 0,
+			When: mkBin("&&", mkBin("<", eVar(vPath("F", "I64")), cInt(3)), neg(mkBin("==", eVar(vPath("F", "S")), cStr("stop")))),
+			Then: []*Stmt{assign(vPath("F", "I64"), "+=", cInt(1))}},
+		&Rule{Name: "Mark", Desc: "", Sal: 5,
+			When: mkBin(">=", eVar(vPath("F", "I64")), eVar(vPath("F", "I32"))),
+			Then: []*Stmt{assign(vPath("F", "S"), "=", mkBin("+", eVar(vPath("F", "S")), cStr("!"))), call(fn("Retract", cStr("Mark")))}},
+		&Rule{Name: "Done", Desc: "", Sal: -1,
+			When: eAtom(&Atom{Kind: "neg", A: aVar(vPath("F", "B"))}),
+			Then: []*Stmt{call(fn("Complete"))}})
+	fl.Fact.I32, fl.Fact.B, fl.Fact.S = 2, true, "go"
+	out = append(out, regression{"flat-example", fl})
 	return out
 }
 
